@@ -218,13 +218,173 @@ func silence() func() {
 }
 
 type prepared struct {
-	md      intoto.Metadata
-	genuine map[string]intoto.Key
-	history string
-	keys    map[string]intoto.Key
-	sup    *gen.Supply
-	expect string // accept | reject | either
-	skip   string
+	md           intoto.Metadata
+	genuine      map[string]intoto.Key
+	history      string
+	keys         map[string]intoto.Key
+	sup          *gen.Supply
+	expect       string // accept | reject | either | never-forged
+	skip         string
+	forgedMarker string
+}
+
+// ---- wrapper-document alterations: a second copy of the content member ------------------------------------
+
+var spellings = []string{"exact", "capitalised", "upper"}
+
+func spell(member, how string) string {
+	switch how {
+	case "capitalised":
+		return strings.ToUpper(member[:1]) + member[1:]
+	case "upper":
+		return strings.ToUpper(member)
+	}
+	return member
+}
+
+// memberAlterations: the wrapper document carries, next to the genuinely signed content member, a second
+// member with forged content whose name is the same up to letter case; either may carry the exact name.
+func memberAlterations() []string {
+	var out []string
+	for _, g := range spellings {
+		for _, f := range spellings {
+			for _, pos := range []string{"before", "after"} {
+				out = append(out, fmt.Sprintf("genuine-%s+forged-%s-%s", g, f, pos))
+			}
+		}
+	}
+	return out
+}
+
+// rawMembers reads the top-level members of a JSON document in file order.
+func rawMembers(path string) (names []string, vals []json.RawMessage) {
+	raw, err := os.ReadFile(path)
+	if err != nil {
+		panic(err)
+	}
+	dec := json.NewDecoder(strings.NewReader(string(raw)))
+	if _, err := dec.Token(); err != nil {
+		panic(err)
+	}
+	for dec.More() {
+		t, err := dec.Token()
+		if err != nil {
+			panic(err)
+		}
+		var v json.RawMessage
+		if err := dec.Decode(&v); err != nil {
+			panic(err)
+		}
+		names, vals = append(names, t.(string)), append(vals, v)
+	}
+	return
+}
+
+func prepareMember(c *mcx.Ctx, cs Case, p *prepared, path string) {
+	var g, f, pos string
+	parts := strings.Split(cs.Alt, "+")
+	g = strings.TrimPrefix(parts[0], "genuine-")
+	fp := strings.Split(strings.TrimPrefix(parts[1], "forged-"), "-")
+	f, pos = fp[0], fp[1]
+	member := "signed"
+	if cs.DSSE {
+		member = "payload"
+	}
+	// forged content: no steps, one inspection that leaves a marker of its own
+	forged := cloneLayout(p.sup.Layout)
+	forged.Steps = nil
+	p.forgedMarker = filepath.Join(c.Work, "forged-marker")
+	os.Remove(p.forgedMarker)
+	forged.Inspect = []intoto.Inspection{gen.Inspection("forged", []string{"sh", "-c", "touch " + p.forgedMarker}, [][]string{{"ALLOW", "*"}}, [][]string{{"ALLOW", "*"}})}
+	fpth := filepath.Join(c.Work, "forged.layout")
+	os.Remove(fpth)
+	if err := signFile(fpth, forged, cs.DSSE, nil); err != nil {
+		p.skip = "forged layout cannot be encoded: " + err.Error()
+		return
+	}
+	fn, fv := rawMembers(fpth)
+	var forgedVal json.RawMessage
+	for i := range fn {
+		if fn[i] == member {
+			forgedVal = fv[i]
+		}
+	}
+	names, vals := rawMembers(path)
+	var b strings.Builder
+	b.WriteString("{")
+	first := true
+	put := func(n string, v json.RawMessage) {
+		if !first {
+			b.WriteString(",")
+		}
+		first = false
+		k, _ := json.Marshal(n)
+		b.Write(k)
+		b.WriteString(":")
+		b.Write(v)
+	}
+	for i := range names {
+		if names[i] != member {
+			put(names[i], vals[i])
+			continue
+		}
+		if pos == "before" {
+			put(spell(member, f), forgedVal)
+		}
+		put(spell(member, g), vals[i])
+		if pos == "after" {
+			put(spell(member, f), forgedVal)
+		}
+	}
+	b.WriteString("}")
+	os.Remove(path)
+	if err := os.WriteFile(path, []byte(b.String()), 0o644); err != nil {
+		panic(err)
+	}
+	p.expect = "never-forged"
+}
+
+// executeMember: whatever the loader makes of the two members, forged content is never enforced: a
+// signature that verifies belongs to the payload that is handed out, the forged inspection never runs,
+// and verification without links (which only the step-less forged layout could pass) never succeeds.
+func executeMember(c *mcx.Ctx, cs Case, p prepared) (obs, sig string, orders int64) {
+	wr := "legacy"
+	if cs.DSSE {
+		wr = "dsse"
+	}
+	tag := fmt.Sprintf("%s|%s|entry=%d", altClass(cs), wr, cs.Entry)
+	genuine := gen.JSON(p.sup.Layout)
+	verifies := true
+	for _, k := range p.keys {
+		if p.md.VerifySignature(k) != nil {
+			verifies = false
+		}
+	}
+	c.Impl(1)
+	if verifies && gen.JSON(p.md.GetPayload()) != genuine {
+		return "every supplied key verifies, but GetPayload is not the signed layout", "C01|payload-handed-out-is-not-the-signed-one|file-member|" + tag, 1
+	}
+	empty := gen.FreshDir(c.Work, "empty-links")
+	var res []string
+	for _, dir := range []string{p.sup.LinkDir, empty} {
+		_, err := gen.VerifyAt(c.Work, cs.Entry, p.md, p.keys, dir, nil, nil)
+		c.Impl(1)
+		_, ferr := os.Stat(p.forgedMarker)
+		os.Remove(p.forgedMarker)
+		p.sup.MarkersPresent()
+		if ferr == nil {
+			return "the inspection of the forged member was executed", "C01|forged-content-enforced|file-member|" + tag, 2
+		}
+		if err == nil && dir == empty {
+			return "verification succeeds without any link: the step-less forged layout was enforced", "C01|forged-content-enforced|file-member|" + tag, 2
+		}
+		if err == nil {
+			res = append(res, "accept")
+		} else {
+			res = append(res, "reject")
+		}
+	}
+	return strings.Join(res, "+"), "", 2
 }
 
 // prepare builds the metadata and keys of one case and says what the statement demands.
@@ -259,6 +419,11 @@ func prepare(c *mcx.Ctx, cs Case) prepared {
 	switch cs.Kind {
 	case "none":
 		load()
+	case "file-member":
+		prepareMember(c, cs, &p, path)
+		if p.skip == "" {
+			load()
+		}
 	case "content-mem", "content-file":
 		alt := cloneLayout(sup.Layout)
 		found := false
@@ -369,6 +534,9 @@ var fullAt = func(label string) bool { return strings.HasPrefix(label, "VerifyLa
 
 // execute verifies under every order of the layout-key loop and with three link directories.
 func execute(c *mcx.Ctx, cs Case, p prepared) (obs, sig string, orders int64) {
+	if cs.Kind == "file-member" {
+		return executeMember(c, cs, p)
+	}
 	garbage := gen.FreshDir(c.Work, "garbage-links")
 	os.WriteFile(filepath.Join(garbage, "s1.aaaaaaaa.link"), []byte("{not json"), 0o644)
 	os.WriteFile(filepath.Join(garbage, "s2.bbbbbbbb.link"), []byte("[]"), 0o644)
@@ -552,6 +720,10 @@ func run(c *mcx.Ctx) {
 						do(Case{Shape: shape, DSSE: dsse, Entry: entry, S: sv[0], V: sv[1], Kind: "sig", Alt: a})
 					}
 				}
+				// wrapper-document alterations
+				for _, a := range memberAlterations() {
+					do(Case{Shape: shape, DSSE: dsse, Entry: entry, S: []string{"ed5"}, V: []string{"ed5"}, Kind: "file-member", Alt: a})
+				}
 				// supplied key set alterations
 				for _, v := range all {
 					for _, a := range keyAlterations {
@@ -584,7 +756,7 @@ func init() {
 		ID: "C01", Run: run, Replay: replay,
 		Rule: "full product: layout shape (1 step; 2 steps; thorough: + root CAs and certificate constraints - each with a marker inspection) x {legacy, DSSE} x {InTotoVerify, InTotoVerifyWithDirectory} x [ all 8 signer subsets of {RSA, ECDSA, Ed25519} x all 16 verifier subsets of those plus a foreign key, unaltered; " +
 			"every single-point alteration of the signed content found by a reflective walk (string changed, slice element dropped/duplicated/appended, map entry dropped/added, int +-1), applied to the in-memory object and to the file under the old signatures; " +
-			"signature-list alterations (entry dropped, first/middle/last byte corrupted, signature of another layout by the same key, emptied, key ids / signatures of two entries swapped, duplicate entry, empty list); supplied-key alterations (same id with foreign material, extra key that did not sign, map key differs, private half supplied) ]; " +
+			"signature-list alterations (entry dropped, first/middle/last byte corrupted, signature of another layout by the same key, emptied, key ids / signatures of two entries swapped, duplicate entry, empty list); supplied-key alterations (same id with foreign material, extra key that did not sign, map key differs, private half supplied); wrapper-document alterations (a second content member - signed / payload - with forged step-less content and an inspection of its own, named like the genuine one up to letter case: 3 spellings of the genuine x 3 of the forged x before/after) ]; " +
 			"each case under every order of the layout-key loop and with a complete, an empty and a garbage link directory. non-trivial = at least one verifier key or an alteration. states = cases, transitions = verifications.",
 		Assumptions: []string{
 			"soundness is demanded (accept only if ...); acceptance of an unaltered layout carrying a correctly labelled valid signature for every supplied key is demanded as the non-vacuity baseline; mislabelled-but-present signatures are don't-care",
